@@ -233,6 +233,7 @@ SRC_TIE_TEXT = {
     'MergedTrack': 'the property MidiFile.merged_track of midifiles.py (TypeError for a type-2 file, otherwise merge_tracks of the tracks held at the moment of the access: a pure function of the two fields it reads) = the model\'s observation of the merged track',
     'ParserResync': 'the Parser tie composed with the C04 and C06 theorems: a fresh translated Parser fed any bytes 0..255 never raises, holds valid messages whose encodings are the tokens of the input (one real-time message per defined real-time byte, the rest a subsequence of the input), recognises a complete message after any prefix, parses concatenated encodings back, and delivers real-time bytes inside a sysex ahead of it with the payload unchanged',
     'Backend': 'backend.py: _add_api (= addApi), _env (= envVar), _get_devices, open_input / open_output / open_ioport (the module class is called once with the explicit name or the environment variable and a keyword dict carrying the API; native IOPort or an Input/Output pair wrapped by ports.IOPort) and the three name listings (= namesSpec of the device list), with the process environment, what the module defines and what its classes / get_devices do as parameters',
+    'Frozen': 'is_frozen, freeze_message and thaw_message of frozen.py (objects as class name + instance dict, isinstance through the table of method resolution orders read off the classes of the working tree, the message\'s own copy() a parameter) = the heap model\'s freeze / thaw: the matching class, the same instance dict, None for None, ValueError for anything else',
     'Tok': 'the Tokenizer state machine of tokenizer.py (_feed_status_byte, _feed_data_byte, feed_byte, feed)',
     'Meta': 'check_int and the encode/decode/check methods of the numeric meta specs of meta.py',
     'Vlq': 'encode_variable_int and decode_variable_int (meta.py)',
@@ -244,7 +245,7 @@ SRC_TIE_TEXT = {
 SRC_TIE = {
     'C01': ['Codec', 'Msg'], 'C02': ['Codec', 'Msg', 'MsgDecision'], 'C03': ['Codec'],
     'C04': ['Tok', 'Parser', 'ParserSession', 'ParserResync'], 'C05': ['Tok', 'Parser', 'ParserSession'], 'C06': ['Tok', 'Parser', 'ParserSession', 'ParserResync'], 'C18': ['Tok', 'Sockets'], 'C19': ['Tok', 'Parser', 'Syx'],
-    'C07': ['Vlq', 'VlqRead', 'Tracks', 'Writer', 'Reader', 'FileRoundTrip'], 'C08': ['Vlq', 'VlqRead', 'Writer', 'Reader', 'FileConformance'], 'C09': ['Meta', 'Vlq', 'MetaFrame', 'MetaRoundTrip'], 'C10': ['Ports', 'PortsIter'], 'C11': ['Ports', 'PortsIter', 'PortsLifecycle'], 'C12': ['Tracks', 'TracksMerge'], 'C13': ['Timing'], 'C17': ['Charset'], 'C16': ['Tracks', 'MergedTrack'], 'C20': ['Backend'],
+    'C07': ['Vlq', 'VlqRead', 'Tracks', 'Writer', 'Reader', 'FileRoundTrip'], 'C08': ['Vlq', 'VlqRead', 'Writer', 'Reader', 'FileConformance'], 'C09': ['Meta', 'Vlq', 'MetaFrame', 'MetaRoundTrip'], 'C10': ['Ports', 'PortsIter'], 'C11': ['Ports', 'PortsIter', 'PortsLifecycle'], 'C12': ['Tracks', 'TracksMerge'], 'C13': ['Timing'], 'C17': ['Charset'], 'C16': ['Tracks', 'MergedTrack'], 'C20': ['Backend'], 'C15': ['Frozen'],
 }
 
 
